@@ -562,6 +562,16 @@ def gen_all():
            body_filter=lambda b: re.sub(r"^RCode\((.*)\)$", r"\1", b.strip(), flags=re.S))
     e("")
 
+    # the length gate of `MessageReader::new`: `if <cond> { return Err(Error::MessageTooLong(..)) }`
+    def new_gate(b):
+        m = re.search(r"\bif\s+(.*?)\s*\{\s*return\s+Err\(\s*Error::MessageTooLong\b", b, flags=re.S)
+        if not m:
+            raise ParseError("MessageReader::new: no `if .. { return Err(Error::MessageTooLong(..)) }` gate")
+        return m.group(1)
+    g.func("src/message/reader/message_reader/reader.rs", "new", "reader_new_too_long",
+           [("msg_len", [], "usize")], env_extra={"msg": ("msg", "usize")}, ret="Bool", body_filter=new_gate)
+    e("")
+
     # KNOWN tables and associated constants
     g.table("src/records/type.rs", "KNOWN", "TYPE_KNOWN")
     g.table("src/records/class.rs", "KNOWN", "CLASS_KNOWN")
